@@ -18,6 +18,7 @@ def run(tier):
     rep = Report(PID, tier, 'model_checking')
     bl = hjcommon.QUICK_BOUNDS if tier == 'quick' else hjcommon.THOROUGH_BOUNDS + hjcommon.HUGE_BOUNDS
     hjcommon.explore(rep, ('C02',), bl, ('U',))
+    hjcommon.explore_codecs(rep, ('C02',), tier, ('U',))
     hjcommon.probe_long_cards(rep, ('U', 'long'))
     for (n, J, deltas) in (QUICK_JOPROBE if tier == 'quick' else THOROUGH_JOPROBE):
         t0 = time.time()
